@@ -71,6 +71,18 @@ access(all) contract Conc {
     access(all) attachment Att for Res {
         access(all) fun twice(): Int { return base.v * 2 }
     }
+    access(all) struct interface K {
+        access(E1) fun k1(): Int
+        access(E2 | F1) fun k2(): Int
+        access(mapping N) var inner: Inner
+    }
+    access(all) struct KImpl: K {
+        access(mapping N) var inner: Inner
+        access(all) var v: Int
+        init(_ v: Int) { self.v = v; self.inner = Inner(v) }
+        access(E1) fun k1(): Int { return self.v + 11 }
+        access(E2 | F1) fun k2(): Int { return self.v + 12 }
+    }
     access(all) event Done(n: Int, s: String, xs: [Int])
     access(all) fun mk(_ v: Int): @Res { return <- create Res(v) }
     access(all) fun done(_ n: Int) { emit Done(n: n, s: n.toString(), xs: [n, n]) }
@@ -79,9 +91,18 @@ access(all) contract Conc {
 `
 
 // c36Script renders the k-th script of worker g (templates x parameters; distinct sources force their own parse + check).
-func c36Script(r *Rng, g, k int) string {
+func c36Script(r *Rng, g, k int) string { return c36ScriptT(r, g, k, -1) }
+
+const c36Templates = 13
+
+// c36ScriptT: tmpl >= 0 forces the template (the same random draws are consumed either way).
+func c36ScriptT(r *Rng, g, k, tmpl int) string {
 	a, b := r.Intn(50)+1, r.Intn(50)+1
-	switch r.Intn(10) {
+	t := r.Intn(c36Templates)
+	if tmpl >= 0 {
+		t = tmpl % c36Templates
+	}
+	switch t {
 	case 0:
 		return fmt.Sprintf(`import Conc from 0x1
 access(all) fun main(): [Int] {
@@ -134,7 +155,8 @@ access(all) fun main(): [AnyStruct] {
     let s = n.toString().concat(m.toString()).concat(f.toString()).concat(w.toString())
     let d: {String: [Int]} = {"a": [1, 2], "b": []}
     d["a"]!.append(%d)
-    return [s, n.getType().identifier, m.isInstance(Type<Int64>()), d.keys.length, d["a"]!.length, "x".utf8, [1 as UInt8, 2].toConstantSized<[UInt8; 2]>() != nil]
+    let u8s: [UInt8] = [1, 2]
+    return [s, n.getType().identifier, m.isInstance(Type<Int64>()), d.keys.length, d["a"]!.length, "x".utf8, u8s.toConstantSized<[UInt8; 2]>() != nil]
 }`, a, b, g*100+k)
 	case 5:
 		return fmt.Sprintf(`import World from 0x1
@@ -171,9 +193,57 @@ access(all) fun main(): [AnyStruct] {
     let c = caps.get<&AnyResource>(/public/nothing)
     let ty = ReferenceType(entitlements: ["A.0000000000000001.Conc.E1"], type: Type<Conc.Outer>())
     let ot = OptionalType(Type<Conc.Inner>())
-    let dt = DictionaryType(keyType: Type<String>(), valueType: Type<[Conc.Inner]>())
+    let dt = DictionaryType(key: Type<String>(), value: Type<[Conc.Inner]>())
     return [c.check(), ty?.identifier, ot.identifier, dt?.identifier, CompositeType("A.0000000000000001.Conc.Res")?.identifier, %d]
 }`, g*100+k)
+	case 10:
+		// `result` of a resource-returning function with a postcondition is fully entitled: supported entitlements of a shared type
+		return fmt.Sprintf(`import Conc from 0x1
+access(all) fun mk(_ v: Int): @Conc.Res {
+    post { result.v == v: "v"; result.inner.v == v: "inner" }
+    return <- Conc.mk(v)
+}
+access(all) fun main(): [Int] {
+    let r <- mk(%d)
+    let v = r.v
+    var n = 0
+    r.forEachAttachment(fun (a: &AnyResourceAttachment) { n = n + 1 })
+    let r2 <- attach Conc.Att() to <-r
+    r2.forEachAttachment(fun (a: &AnyResourceAttachment) { n = n + 10 })
+    destroy r2
+    return [v, n, %d]
+}`, a, g*100+k)
+	case 11:
+		// entitlements through an interface / intersection type of a shared contract
+		return fmt.Sprintf(`import Conc from 0x1
+access(all) fun main(): [AnyStruct] {
+    let x = Conc.KImpl(%d)
+    let r = &x as auth(Conc.E1, Conc.E2) &{Conc.K}
+    let a = r.k1()
+    let b = r.k2()
+    let i = r.inner
+    let y: AnyStruct = x
+    let d = y as? {Conc.K}
+    let rr = &x as auth(Conc.E2) &Conc.KImpl
+    return [a, b, i.f2(), i.f1(), i.f3(), d != nil, r.getType().identifier, rr.k2(), rr.inner.f1(), %d]
+}`, a, g*100+k)
+	case 12:
+		// members of built-in types (lazily initialised member resolvers), string / array / path / address functions
+		return fmt.Sprintf(`access(all) fun main(): [AnyStruct] {
+    let s = "h\u{e9}llo w\u{f6}rld %d"
+    let parts = s.split(separator: " ")
+    let xs: [UInt64] = [3, 1, %d]
+    let m = xs.map(fun (x: UInt64): UInt64 { return x * 2 })
+    let f = xs.filter(view fun (x: UInt64): Bool { return x > 1 })
+    let p: StoragePath = /storage/foo
+    let addr: Address = 0x1
+    let c: Character = "a"
+    let fx: Fix64 = -1.5
+    let o: Int? = %d
+    return [s.length, parts.length, s.toLower(), m, f.length, xs.reverse(), p.toString(), addr.toBytes(), c.utf8, fx.toString(),
+        xs.contains(2), s.slice(from: 0, upTo: 3), o.map(fun (x: Int): Int { return x + 1 }), xs.toConstantSized<[UInt64; 3]>() != nil,
+        String.join(parts, separator: "-"), UInt64.fromString("12"), Int.fromBigEndianBytes([1, 2]), InclusiveRange(1, 5).contains(3), %d]
+}`, a, b, a+b, g*100+k)
 	default:
 		return fmt.Sprintf(`import Conc from 0x1
 access(all) fun main(): [Int] {
@@ -198,6 +268,9 @@ type c36Job struct {
 	Engine    string `json:"engine"`
 	Mode      string `json:"mode"` // "S" | "R"
 	MaxProcs  int    `json:"gomaxprocs,omitempty"`
+	// Focus > 0: the first script of EVERY worker is an instance of template Focus-1 (distinct sources), so that all workers
+	// reach the same cold lazily initialised caches of the shared types at the same time
+	Focus int `json:"focus,omitempty"`
 }
 
 func c36BaseWorld() *World {
@@ -298,6 +371,8 @@ func c36Scripts(job c36Job) [][]string {
 		for k := 0; k < job.PerWorker; k++ {
 			if k == 1 {
 				out[g] = append(out[g], shared)
+			} else if k == 0 && job.Focus > 0 {
+				out[g] = append(out[g], c36ScriptT(r, g, k, job.Focus-1))
 			} else {
 				out[g] = append(out[g], c36Script(r, g, k))
 			}
@@ -518,7 +593,7 @@ func c36Worker(w *WorkerCtx) {
 		return
 	}
 	emit := func(job c36Job, vs []Violation, extra map[string]int, report string) bool {
-		res := WorkResult{Kind: "item", Seed: job.Seed, Stats: NewRunStats(), Shape: fmt.Sprintf("%s/%s/%d/%d/%d", job.Mode, job.Engine, job.W, job.PerWorker, job.Seed), NonTrivial: true, Extra: extra}
+		res := WorkResult{Kind: "item", Seed: job.Seed, Stats: NewRunStats(), Shape: fmt.Sprintf("%s/%s/%d/%d/%d/%d", job.Mode, job.Engine, job.W, job.PerWorker, job.Focus, job.Seed), NonTrivial: true, Extra: extra}
 		res.Stats.Execs = 2 * job.W * job.PerWorker
 		res.Sample, _ = json.Marshal(job)
 		stop := false
@@ -569,12 +644,17 @@ func c36Worker(w *WorkerCtx) {
 		// mode R, in a fresh race-detector process with cold caches
 		job.Mode = "R"
 		job.MaxProcs = []int{2, 4, 16}[r.Intn(3)]
+		focusExtra := "modeR_unfocused_jobs"
+		if r.Intn(2) == 0 {
+			job.Focus = 1 + r.Intn(c36Templates)
+			focusExtra = fmt.Sprintf("modeR_focus_template_%d", job.Focus-1)
+		}
 		vs, report, herr := runRaceChild(raceExe, worldFile, job)
 		if herr != "" {
 			w.Emit(WorkResult{Kind: "harness-error", Msg: herr})
 			return
 		}
-		if emit(job, vs, map[string]int{"modeR_jobs": 1, fmt.Sprintf("modeR_gomaxprocs_%d", job.MaxProcs): 1}, report) {
+		if emit(job, vs, map[string]int{"modeR_jobs": 1, fmt.Sprintf("modeR_gomaxprocs_%d", job.MaxProcs): 1, focusExtra: 1}, report) {
 			return
 		}
 	}
